@@ -256,7 +256,11 @@ class Suspend:
         w.ntok += 1
         tok = Token(w, w.ntok, self.kind, self.lock)
         w.pending.append(tok)
-        reply = yield tok
+        try:
+            reply = yield tok
+        except BaseException as e:
+            w.thrown_seen.append((tok, e))  # what the loop threw in reached this awaitable
+            raise
         if reply is not tok.reply:
             w.bad("c17:reply-altered")
         return None
@@ -303,6 +307,7 @@ class World:
         self.aclose_ret = None  # what a class-based source's aclose() returns (legal: anything)
         self.srcs = []
         self.ntok = 0
+        self.thrown_seen = []
         self.pending = []
         self.viol = []
         self.locks = []
@@ -635,6 +640,7 @@ class Driver:
         self.sync_only = sync_only
         self.nsusp = 0
         self.cancelled = False
+        self.cancel_token = None
 
     def run(self, awaitable):
         it = awaitable.__await__()
@@ -673,6 +679,7 @@ class Driver:
                 raise Deadlocked()
             if self.cancel_at and self.nsusp == self.cancel_at and not self.cancelled:
                 self.cancelled = True
+                self.cancel_token = tok
                 throw = self.cancel_exc
             else:
                 send = tok.reply
